@@ -530,12 +530,16 @@ func checkUUIDSet(c timeCase) []vf.Finding {
 	} else if !u1.GetTime().Equal(tm) {
 		fs = append(fs, vf.F("UUIDv1.GetTime", "inverse-pair-differs", "%v -> %d -> %v", tm, u1.Time, u1.GetTime().UTC()))
 	}
+	// A version 2 value carries bits 32..59 of the timestamp only (DCE 1.1: the low 32 bits give way to
+	// the local identifier). That is the narrower side of this pair: the part of the timestamp the value
+	// carries must be exact, whether Time also keeps the low 32 bits is the implementation's choice, and
+	// GetTime must name the instant to within what the low 32 bits hold (less than 2^32 ticks).
 	u2 := &uuid_v2.UUIDv2{}
 	u2.SetTime(tm)
-	if u2.Time != want.Uint64() {
-		fs = append(fs, vf.F("UUIDv2.SetTime", "ticks-differ-from-exact", "%v: got %d want %s", tm, u2.Time, want))
-	} else if !u2.GetTime().Equal(tm) {
-		fs = append(fs, vf.F("UUIDv2.GetTime", "inverse-pair-differs", "%v -> %d -> %v", tm, u2.Time, u2.GetTime().UTC()))
+	if u2.Time>>32 != want.Uint64()>>32 {
+		fs = append(fs, vf.F("UUIDv2.SetTime", "ticks-differ-from-exact", "%v: got %d want %s (bits 32..59: %#x want %#x)", tm, u2.Time, want, u2.Time>>32, want.Uint64()>>32))
+	} else if got := wintime.TimeToTicks(u2.GetTime(), wintime.Epoch1582Unix); new(big.Int).Abs(new(big.Int).Sub(got, want)).Cmp(big.NewInt(1<<32)) >= 0 {
+		fs = append(fs, vf.F("UUIDv2.GetTime", "inverse-pair-differs", "%v -> %d -> %v (2^32 ticks or more away)", tm, u2.Time, u2.GetTime().UTC()))
 	}
 	return fs
 }
